@@ -640,6 +640,14 @@ func (t *tr) call(e *ast.CallExpr, en env) V {
 			if strings.HasPrefix(x.T, "List ") || x.T == "Coins" {
 				return V{"(" + x.L + ".length : Int)", "Int"}
 			}
+			if strings.HasPrefix(string(x.T), "Map ") {
+				// the number of keys of a Go map: the length of the oracle key list of the range over it
+				if o, ok := t.u.MapLen[t.w.render(e.Args[0])]; ok {
+					if ov, ok := en.m[o]; ok {
+						return V{"(" + ov.lean + ".length : Int)", "Int"}
+					}
+				}
+			}
 			return t.bad("len of %s", x.T)
 		case "int64", "uint64", "int", "uint32":
 			x := t.expr(e.Args[0], en)
@@ -654,6 +662,25 @@ func (t *tr) call(e *ast.CallExpr, en env) V {
 				if ok1 && ok2 {
 					return V{"(fun _ => none)", "Map " + kt + " " + vt}
 				}
+			}
+			if at, ok := e.Args[0].(*ast.ArrayType); ok && at.Len == nil && len(e.Args) == 2 {
+				// make([]T, n): n zero values
+				if bl, ok := e.Args[1].(*ast.BasicLit); ok && bl.Value == "0" {
+					if et, ok := t.typeName(t.w.render(at.Elt)); ok {
+						return V{"([] : List " + leanTypeAtom(et) + ")", "List " + et}
+					}
+				}
+				if et, ok := t.typeName(t.w.render(at.Elt)); ok {
+					n := t.expr(e.Args[1], en)
+					z, okz := zeroByLean[et]
+					if n.T == "Int" && okz {
+						if n.L == "(0 : Int)" {
+							return V{"([] : List " + leanTypeAtom(et) + ")", "List " + et}
+						}
+						return V{"(List.replicate (" + n.L + ").toNat " + z + ")", "List " + et}
+					}
+				}
+				return t.bad("make(%s, %s)", t.w.render(e.Args[0]), t.w.render(e.Args[1]))
 			}
 			if at, ok := e.Args[0].(*ast.ArrayType); ok && at.Len == nil {
 				if et, ok := t.typeName(t.w.render(at.Elt)); ok {
@@ -1082,6 +1109,14 @@ func (t *tr) stmts(list []ast.Stmt, en env, k cont) string {
 				}
 			}
 			return t.failf("sort.Strings of %s", t.w.render(call.Args[0]))
+		}
+		if callee == "sort.Slice" && len(call.Args) == 2 {
+			id, ok1 := call.Args[0].(*ast.Ident)
+			fl, ok2 := call.Args[1].(*ast.FuncLit)
+			if ok1 && ok2 {
+				return t.sortSlice(id, fl, en, next)
+			}
+			return t.failf("sort.Slice of %s", t.w.render(call.Args[0]))
 		}
 		if callee == "sort.Search" && len(call.Args) == 2 {
 			if fl, ok := call.Args[1].(*ast.FuncLit); ok {
@@ -1671,6 +1706,15 @@ func (t *tr) assign0(s *ast.AssignStmt, en env) (string, env) {
 			m := t.expr(l.X, en)
 			k := t.expr(l.Index, en)
 			id, ok := l.X.(*ast.Ident)
+			if ok && strings.HasPrefix(m.T, "List ") {
+				// `xs[i] = v` on a slice variable
+				if strings.TrimPrefix(m.T, "List ") != v.T || k.T != "Int" {
+					return t.failf("slice element %s at index %s, expected %s", v.T, k.T, m.T), en
+				}
+				mv := en.m[id.Name]
+				out += fmt.Sprintf("let %s : %s := Go.listSet %s %s %s\n", mv.lean, leanType(mv.t), mv.lean, atom(k.L), atom(v.L))
+				continue
+			}
 			if !ok || !strings.HasPrefix(m.T, "Map ") {
 				// field map: res.M[k] = v
 				if sel, ok := l.X.(*ast.SelectorExpr); ok && strings.HasPrefix(m.T, "Map ") {
@@ -2740,6 +2784,51 @@ func closureDecl(fd funcDecl) (funcDecl, bool) {
 	}
 	nd := &ast.FuncDecl{Name: d.Name, Recv: d.Recv, Type: &ast.FuncType{Params: params, Results: fl.Type.Results}, Body: fl.Body}
 	return funcDecl{decl: nd, file: fd.file}, true
+}
+
+// sortSlice: `sort.Slice(xs, func(i, j int) bool { return <less over xs[i], xs[j]> })` on a slice
+// variable becomes `Go.sortSlice (fun a__ b__ => less) xs` (the prelude's insertion sort: for a
+// comparator that is a strict weak order — part of the tie's obligations — every correct sort
+// gives a list sorted by it; for one that is not, the result depends on Go's algorithm and the
+// call must stay an oracle).  The comparator may read nothing but the two elements.
+func (t *tr) sortSlice(id *ast.Ident, fl *ast.FuncLit, en env, next cont) string {
+	v, ok := en.m[id.Name]
+	if !ok || !strings.HasPrefix(v.t, "List ") {
+		return t.failf("sort.Slice of %s", id.Name)
+	}
+	el := LT(strings.TrimPrefix(string(v.t), "List "))
+	ps := paramNames(fl.Type.Params)
+	if len(ps) != 2 || len(fl.Body.List) != 1 {
+		return t.failf("sort.Slice comparator shape")
+	}
+	rs, ok := fl.Body.List[0].(*ast.ReturnStmt)
+	if !ok || len(rs.Results) != 1 {
+		return t.failf("sort.Slice comparator shape")
+	}
+	en2 := en.deeper()
+	en2.m["a__"] = evar{"a__", el, en2.depth}
+	en2.m["b__"] = evar{"b__", el, en2.depth}
+	if t.indexAlias == nil {
+		t.indexAlias = map[string]string{}
+	}
+	ka, kb := id.Name+"["+ps[0]+"]", id.Name+"["+ps[1]+"]"
+	oa, hasA := t.indexAlias[ka]
+	ob, hasB := t.indexAlias[kb]
+	t.indexAlias[ka], t.indexAlias[kb] = "a__", "b__"
+	before := len(t.pre)
+	c := t.expr(rs.Results[0], en2)
+	delete(t.indexAlias, ka)
+	delete(t.indexAlias, kb)
+	if hasA {
+		t.indexAlias[ka] = oa
+	}
+	if hasB {
+		t.indexAlias[kb] = ob
+	}
+	if c.T != "Bool" || len(t.pre) != before {
+		return t.failf("sort.Slice comparator of type %s", c.T)
+	}
+	return fmt.Sprintf("let %s : %s := (Go.sortSlice (fun a__ b__ => %s) %s)\n", v.lean, leanType(v.t), c.L, v.lean) + next(en)
 }
 
 // groupDeps: which generated files a group imports
